@@ -1532,6 +1532,24 @@ pub fn check_text(text: &str, tok_offs: &[usize], label: &str, detectors: &[Dete
         let must_n = verdicts.iter().filter(|x| x.must).count();
         res.must_counts.push((must_n, verdicts.len() - must_n, got.len()));
         let anchor_lines: HashSet<i32> = verdicts.iter().flat_map(|x| x.anchors.iter().map(|&a| crate::layout::line_of(text, a))).collect();
+        // location (C02 b), exact case: when the reference knows no gray construct in this program and
+        // exactly as many lines are reported as there are canonical constructs, the reported lines must
+        // be anchor lines; a different line set of the same size is a construct reported at a wrong line
+        if mode == Mode::LocationOnly && must_n > 0 && verdicts.len() == must_n && got.len() == must_n && got.iter().any(|l| !anchor_lines.contains(l)) {
+            let must_lines: BTreeSet<i32> = verdicts.iter().map(|x| crate::layout::line_of(text, x.anchors[0])).collect();
+            if must_lines.len() == must_n {
+                res.violations.push(Violation {
+                    site: format!("{}:location:shifted", d.name),
+                    input: text.to_string(),
+                    expected: format!("the {} flagged constructs begin on lines {:?}", must_n, must_lines),
+                    observed: format!("reported lines {:?}", got),
+                    size: text.len(),
+                    unit_test: dets::unit_test_for(d, text, "reported lines must be the first lines of the flagged constructs"),
+                    extra: json!({"label": label}),
+                });
+                continue;
+            }
+        }
         // soundness / location
         for &line in &got {
             if anchor_lines.contains(&line) {
@@ -1609,11 +1627,12 @@ pub struct Sweep {
     /// per detector: programs with non-empty Must / with May only / with reports
     pub stats: Vec<(String, u64, u64, u64)>,
     pub outcome_set: Vec<u64>,
+    pub back_to_back_pairs: u64,
 }
 
 impl Sweep {
     pub fn empty(detectors: &[Detector]) -> Sweep {
-        Sweep { violations: Vec::new(), machinery: Vec::new(), programs: 0, calls: 0, validated: 0, distinct_outcomes: 0, reported_lines: 0, stats: detectors.iter().map(|d| (d.name.to_string(), 0, 0, 0)).collect(), outcome_set: Vec::new() }
+        Sweep { violations: Vec::new(), machinery: Vec::new(), programs: 0, calls: 0, validated: 0, distinct_outcomes: 0, reported_lines: 0, stats: detectors.iter().map(|d| (d.name.to_string(), 0, 0, 0)).collect(), outcome_set: Vec::new(), back_to_back_pairs: 0 }
     }
     /// fold another sweep into this one, keeping only the smallest witness per violation site
     pub fn merge(&mut self, other: Sweep, outcomes: &mut BTreeSet<u64>) {
@@ -1621,6 +1640,7 @@ impl Sweep {
         self.calls += other.calls;
         self.validated += other.validated;
         self.reported_lines += other.reported_lines;
+        self.back_to_back_pairs += other.back_to_back_pairs;
         for m in other.machinery {
             if self.machinery.len() < 20 {
                 self.machinery.push(m);
@@ -1757,7 +1777,7 @@ fn reduce(vs: &mut Vec<Violation>) {
 
 pub fn sweep_texts(items: &[(String, String, Vec<usize>)], detectors: &[Detector], mode: Mode) -> Sweep {
     let res = util::par_map(items.len(), |i| check_text(&items[i].1, &items[i].2, &items[i].0, detectors, mode));
-    let mut s = Sweep { violations: Vec::new(), machinery: Vec::new(), programs: 0, calls: 0, validated: 0, distinct_outcomes: 0, reported_lines: 0, stats: Vec::new(), outcome_set: Vec::new() };
+    let mut s = Sweep { violations: Vec::new(), machinery: Vec::new(), programs: 0, calls: 0, validated: 0, distinct_outcomes: 0, reported_lines: 0, stats: Vec::new(), outcome_set: Vec::new(), back_to_back_pairs: 0 };
     let mut outcomes: BTreeSet<u64> = BTreeSet::new();
     let mut st: Vec<(u64, u64, u64)> = vec![(0, 0, 0); detectors.len()];
     for r in res {
@@ -1791,6 +1811,47 @@ pub fn sweep_texts(items: &[(String, String, Vec<usize>)], detectors: &[Detector
         }
     }
     reduce(&mut s.violations);
+    // ---- back-to-back pass: pairs of different programs of equal byte length analysed one after
+    //      the other on one thread with the same file number (A, B, A).  A result that depends on what
+    //      was analysed before (a cache keyed too weakly) shows up deterministically here.
+    if items.len() > 1 {
+        let mut idx: Vec<usize> = (0..items.len()).collect();
+        idx.sort_by_key(|&i| (items[i].1.len(), i));
+        let mut pairs: Vec<(usize, usize)> = Vec::new();
+        let mut per_len = 0;
+        for w in idx.windows(2) {
+            if items[w[0]].1.len() == items[w[1]].1.len() && items[w[0]].1 != items[w[1]].1 {
+                if per_len < 2 {
+                    pairs.push((w[0], w[1]));
+                    per_len += 1;
+                }
+            } else {
+                per_len = 0;
+            }
+        }
+        let stride = (pairs.len() / 1200).max(1);
+        let pairs: Vec<(usize, usize)> = pairs.into_iter().step_by(stride).collect();
+        let pres = util::par_map(pairs.len(), |k| {
+            let (a, b) = pairs[k];
+            let mut vs = Vec::new();
+            let mut calls = 0u64;
+            for &i in &[a, b, a] {
+                let r = check_text(&items[i].1, &items[i].2, &items[i].0, detectors, mode);
+                calls += r.calls;
+                for mut v in r.violations {
+                    v.observed = format!("{} [analysed right after a different program of the same byte length]", v.observed);
+                    vs.push(v);
+                }
+            }
+            (vs, calls)
+        });
+        for (vs, c) in pres {
+            s.calls += c;
+            s.violations.extend(vs);
+        }
+        s.back_to_back_pairs = pairs.len() as u64;
+        reduce(&mut s.violations);
+    }
     s.distinct_outcomes = outcomes.len() as u64;
     s.outcome_set = outcomes.into_iter().collect();
     s.stats = detectors.iter().zip(st).map(|(d, (a, b, c))| (d.name.to_string(), a, b, c)).collect();
